@@ -342,6 +342,24 @@ def main():
         for x in broken:
             print("  note: " + x)
 
+    # thorough tier: the independent checker re-checks the compiled theorem file and everything it depends on
+    coqchk = None
+    if tier == "thorough" and proofs_ok and not replay:
+        mods = " ".join("FitV." + f[:-2].replace("/", ".") for f in cfg["props_files"])
+        st, out = sh("timeout 5400 coqchk -silent -o -Q . FitV %s 2>&1" % mods, cwd=COQ, timeout=5500)
+        m = re.search(r"\* Axioms:(.*?)\n\s*\n\* Constants/Inductives relying on type-in-type:(.*?)\n\s*\n\* Constants/Inductives relying on unsafe \(co\)fixpoints:(.*?)\n\s*\n\* Inductives whose positivity is assumed:(.*?)\n", out + "\n", re.S)
+        coqchk = {"cmd": "coqchk -silent -o -Q . FitV " + mods, "status": st}
+        if m:
+            coqchk.update({"axioms": " ".join(m.group(1).split()), "type_in_type": " ".join(m.group(2).split()),
+                           "unsafe_fixpoints": " ".join(m.group(3).split()), "assumed_positivity": " ".join(m.group(4).split())})
+        if st != 0 or not m or any(coqchk.get(k) != "<none>" for k in ("type_in_type", "unsafe_fixpoints", "assumed_positivity")):
+            rp = write_replay(pid, {"property": pid, "kind": "no-failing-input", "broken": ["coqchk does not accept the compiled development"],
+                                    "coqchk": coqchk, "output_tail": out[-3000:]})
+            l = "VIOLATION property=%s replay=%s no-failing-input-found" % (pid, rp)
+            print(l)
+            violations.append(l)
+            status = 1
+
     axioms = axioms_of(assum_text)
     trusted = list(COMMON_TRUSTED) + list(cfg.get("trusted", []))
     trusted.append("axioms reported by Print Assumptions for %s: %s" % (
@@ -365,6 +383,9 @@ def main():
         "correspondence_failures": len((run or {}).get("correspondence_failures", []) or []),
         "explanation": cfg.get("explanation", ""),
     }
+    if coqchk:
+        cov["coqchk"] = coqchk
+        trusted.append("coqchk (independent checker) accepted %s; axioms it reports: %s" % (", ".join(cfg["props_files"]), coqchk.get("axioms", "?")))
     extra = (run or {}).get("extra") or {}
     for k, v in extra.items():
         cov.setdefault(k, v)
@@ -380,7 +401,8 @@ def main():
         "wall_s": round(time.time() - t0, 2),
         "violations": len(violations),
     }
-    write_evidence(pid, ev)
+    if not replay:
+        write_evidence(pid, ev)   # a replay re-judges one recorded case; it is not a coverage run
     print("%s: tier=%s obligations=%d discharged=%d violations=%d wall=%.1fs" % (
         pid, tier, cov["obligations"], cov["discharged"], len(violations), time.time() - t0))
     return status
